@@ -74,11 +74,18 @@ def env():
     return _ENV
 
 
-SUBCLASSES = {"A": ["A", "B", "C"], "B": ["B", "C"], "C": ["C"], "S": ["S", "S2"], "Other": ["Other"], "int": ["int", "bool"], "str": ["str"],
+SUBCLASSES = {"Any": ["A", "B", "C", "S", "S2", "Other", "int", "bool", "str"], "A": ["A", "B", "C"], "B": ["B", "C"], "C": ["C"], "S": ["S", "S2"], "Other": ["Other"], "int": ["int", "bool"], "str": ["str"],
               "float": ["float"], "bool": ["bool"], "S2": ["S2"]}
 
 # ---------------------------------------------------------------------------
 # descriptor -> annotation object
+
+
+def _param(D, style):
+    """A type parameter: inside PEP 585 generics `None` is written bare (list[None] keeps the literal None in __args__;
+    typing.List[None] is normalised to NoneType by typing itself)."""
+    t = build_type(D)
+    return None if (t is type(None) and style == "pep585") else t
 
 
 def build_type(D):
@@ -93,24 +100,24 @@ def build_type(D):
     if k == "cls":
         return e["classes"][D[1]]
     if k == "list":
-        t = build_type(D[1])
+        t = _param(D[1], D[2])
         return typing.List[t] if D[2] == "typing" else list[t]
     if k == "set":
-        t = build_type(D[1])
+        t = _param(D[1], D[2])
         return typing.Set[t] if D[2] == "typing" else set[t]
     if k == "dict":
-        kt, vt = build_type(D[1]), build_type(D[2])
+        kt, vt = _param(D[1], D[3]), _param(D[2], D[3])
         return typing.Dict[kt, vt] if D[3] == "typing" else dict[kt, vt]
     if k == "tuple":
-        ts = tuple(build_type(t) for t in D[1])
+        ts = tuple(_param(t, D[2]) for t in D[1])
         if not ts:
             return typing.Tuple[()] if D[2] == "typing" else tuple[()]
         return typing.Tuple[ts] if D[2] == "typing" else tuple[ts]
     if k == "vtuple":
-        t = build_type(D[1])
+        t = _param(D[1], D[2])
         return typing.Tuple[t, ...] if D[2] == "typing" else tuple[t, ...]
     if k == "type":
-        c = e["classes"][D[1]]
+        c = typing.Any if D[1] == "Any" else e["classes"][D[1]]
         return typing.Type[c] if D[2] == "typing" else type[c]
     if k == "union":
         ts = [build_type(t) for t in D[1]]
@@ -159,6 +166,8 @@ def realize(v):
         k = v[0]
         if k == "bytes":
             return v[1].encode()
+        if k == "nan":
+            return float("nan")
         if k == "list":
             return [realize(x) for x in v[1]]
         if k == "set":
@@ -218,7 +227,7 @@ def conforms(v, D):
     if k == "vtuple":
         return isinstance(v, tuple) and all(conforms(x, D[1]) for x in v)
     if k == "type":
-        return isinstance(v, type) and issubclass(v, e["classes"][D[1]])
+        return isinstance(v, type) and (D[1] == "Any" or issubclass(v, e["classes"][D[1]]))
     if k == "union":
         return any(conforms(v, t) for t in D[1])
     if k == "optional":
@@ -226,7 +235,7 @@ def conforms(v, D):
     if k == "literal":
         for c in D[1]:
             try:
-                if c is v or c == v:
+                if c is v or (type(c) is type(v) and c == v):  # Literal[1] admits neither True nor 1.0 (PEP 586)
                     return True
             except Exception:  # pragma: no cover
                 pass
@@ -289,7 +298,7 @@ BASE = (
 REDUCED = [["any"], ["int"], ["float"], ["str"], ["none"], ["cls", "A"], ["literal", ["a", "b", 1]], ["bounded", "int", {"ge": 0}],
            ["bounded", "float", {"gt": 0, "le": 1.0}]]
 HASHABLE_KINDS = {"int", "float", "str", "bool", "bytes", "none", "cls", "literal", "bounded", "validated"}
-TYPE_TARGETS = ["A", "B", "S", "int", "Other"]
+TYPE_TARGETS = ["A", "B", "S", "int", "Other", "Any"]
 KEY_TYPES = [["int"], ["str"], ["float"], ["bool"], ["any"], ["literal", ["a", "b", 1]], ["bounded", "int", {"ge": 0}], ["union", [["int"], ["str"]], "typing"]]
 
 
@@ -339,7 +348,7 @@ def gen_type(src, d, need_hashable=False):
 
 
 GENERAL_POOL = [
-    None, True, False, 0, 1, -1, 2, 5, 7, 0.0, 0.5, 1.0, -1.5, 2.5, "", "a", "b", "x", "zz", ["bytes", ""], ["bytes", "ab"],
+    None, True, False, 0, 1, -1, 2, 5, 7, 0.0, 0.5, 1.0, -1.5, 2.5, ["nan"], "", "a", "b", "x", "zz", ["bytes", ""], ["bytes", "ab"],
     ["list", []], ["list", [1]], ["list", ["a"]], ["list", [1, "a"]], ["list", [None]], ["list", [0.5]],
     ["set", []], ["set", [1]], ["set", ["a", 1]], ["tuple", []], ["tuple", [1]], ["tuple", [1, "a"]], ["tuple", ["a", 1]], ["tuple", [1, 2, 3]],
     ["dict", []], ["dict", [["a", 1]]], ["dict", [[1, "a"]]], ["dict", [["a", None]]],
@@ -357,7 +366,7 @@ WRONG = {
 }
 RIGHT = {
     "int": [0, 1, -1, 2, 5, True],
-    "float": [0.0, 0.5, -1.5, 2.0, 1, 0],
+    "float": [0.0, 0.5, -1.5, 2.0, 1, 0, ["nan"]],  # NaN is a float (and lies within no bounds)
     "str": ["", "a", "b", "zz"],
     "bool": [True, False],
     "bytes": [["bytes", ""], ["bytes", "ab"]],
@@ -379,7 +388,7 @@ def _bound_values(D, good):
         cands = {int(c) for c in cands if float(c).is_integer()}
     out = sorted(c for c in cands if conforms(c, D) == good)
     if not good:
-        out += ["a", None] + ([0.5] if base == "int" else [])
+        out += ["a", None] + ([0.5] if base == "int" else [["nan"]])
     return out
 
 
@@ -611,6 +620,7 @@ def units(tier, seed):
         out += [["enum2", i, b["shards"]] for i in range(b["shards"])]
         out += [["fuzz", i] for i in range(8)]
     out += [["hyp", i] for i in range(b["hyp_units"])]
+    out.append(["bounded_decl"])
     return out
 
 
@@ -647,12 +657,45 @@ def run_unit(ctx, unit):
         ctx.count("enum2_shards_completed")
     elif kind == "hyp":
         run_given(ctx, lambda case: run_case(ctx, case), {"case": case_strategy()}, b["examples"], ctx.seed * 1000 + unit[1])
+    elif kind == "bounded_decl":
+        run_bounded_decl(ctx)
     elif kind == "fuzz":
         from vf.fuzz import common
 
         common.run_fuzz_unit(ctx, "c15", unit[1], decode_bytes, run_case, runs=150000, max_len=96)
     else:
         raise AssertionError(unit)
+
+
+def run_bounded_decl(ctx):
+    """bounded(): 'only one of ge/gt can be specified at the same time, and same for le/lt' - for every combination of the four
+    bounds over {absent, 0, 5} (zero bounds are bounds). A declaration that is accepted must then decide values by all the
+    bounds it was given."""
+    e = env()
+    vals = [None, 0, 5]
+    for ge, gt, le, lt in itertools.product(vals, repeat=4):
+        kw = {k: v for k, v in (("ge", ge), ("gt", gt), ("le", le), ("lt", lt)) if v is not None}
+        case = {"bounded_decl": kw}
+        clash = (ge is not None and gt is not None) or (le is not None and lt is not None)
+        try:
+            T = e["bounded"](int, **kw)
+        except ValueError:
+            if not clash:
+                ctx.fail("bounded_decl:refused", case, f"bounded(int, **{kw}) raised ValueError although at most one bound per side is given")
+                return
+            ctx.case(case, True)
+            continue
+        if clash:
+            ctx.fail("bounded_decl:clash_accepted", case, f"bounded(int, **{kw}) was accepted although two bounds of the same side are given")
+            return
+        for v in (-1, 0, 1, 4, 5, 6):
+            want = conforms(v, ["bounded", "int", kw])
+            got = e["check_type"](v, T)
+            if got != want:
+                ctx.fail("bounded_decl:decides_differently", case, f"check_type({v}, bounded(int, **{kw})) -> {got}, the bounds say {want}")
+                return
+        ctx.case(case, bool(kw))
+    ctx.count("bounded_decl_completed")
 
 
 def coverage_extra(tier, counters):
@@ -680,4 +723,6 @@ def decode_bytes(data: bytes):
 
 
 def replay(ctx, case):
+    if "bounded_decl" in case:
+        return run_bounded_decl(ctx)
     run_case(ctx, case)
